@@ -24,6 +24,7 @@ import (
 	"strings"
 	"time"
 
+	ioc "github.com/go-kid/ioc"
 	"github.com/go-kid/ioc/app"
 	"github.com/go-kid/ioc/configure"
 	"github.com/go-kid/ioc/configure/loader"
@@ -65,14 +66,28 @@ type gScen struct {
 	                  // 1 = the SAME component objects were started once before, in another App (state reset to what a user
 	                  //     would reset: nothing — only the harness's own counters); 2 = between this App's start and its
 	                  //     post-start lookups ANOTHER App is started on fresh objects with the same names and rotated qualifiers
-	reuse      []node // hist 1, set by the prelude: the objects to start again
+	                  // 3 = the start goes through the package-level entry points: the first half of the universe components is
+	                  //     registered with ioc.Register, the start is ioc.Run with the usual options (ioc.Register's list is
+	                  //     never cleared: at most one such start per process, the last one); 4 = like 1, but in the earlier
+	                  //     start the custom names of the components were handed round (Naming() answers differently now)
+	reuse      []node // hist 1 / 4, set by the prelude: the objects to start again
 }
 
 // points declared with real struct tags (type 32): name → 'f'/'w' + tag text, in declaration order (after every Base slot)
-var staticSlots = []string{"FQ", "FS"}
-var staticSlotTags = map[string]string{"FQ": "fF2,qualifier=a,required=false", "FS": "fF1,returns=*,qualifier=b,required=false"}
+var staticSlotTags = map[string]string{"FQ": "fF2,qualifier=a,required=false", "FS": "fF1,returns=*,qualifier=b,required=false",
+	"T0": "w,required=false"} // (type 33: the anonymous field `*T0`, Go field name "T0")
 
-func hasStaticSlots(ty int) bool { return ty == 32 }
+func staticSlotsOf(ty int) []string {
+	switch ty {
+	case 32:
+		return []string{"FQ", "FS"}
+	case 33:
+		return []string{"T0"}
+	}
+	return nil
+}
+
+func hasStaticSlots(ty int) bool { return len(staticSlotsOf(ty)) > 0 }
 
 var ifaceTypes = []reflect.Type{
 	reflect.TypeOf((*Ifc0)(nil)).Elem(), reflect.TypeOf((*Ifc1)(nil)).Elem(),
@@ -87,7 +102,9 @@ var cfgTags = []string{"", "lit", "${absent.key}", "${absent.key},required=false
 
 // the configuration document of every start: `sec` has DECOY siblings of its key `a` (spellings that differ by `_` / `-`,
 // which no field asks for), `nest` is reached through a placeholder inside a placeholder
-const graphConfigDoc = "present: cfgval\nsel: inner\nnest:\n  inner: deep\nsec:\n  _a: decoy1\n  a: good\n  a-: decoy2\n  a_: decoy3\ntm: 2024-05-06T07:08:09Z\n"
+const graphConfigDoc = "present: cfgval\nsel: inner\nnest:\n  inner: deep\nsec:\n  _a: decoy1\n  a: good\n  a-: decoy2\n  a_: decoy3\ntm: 2024-05-06T07:08:09Z\nbadsec: [1, 2]\n"
+
+// cfg 13: W0 bound by prefix to `badsec`, a LIST: the decoder refuses it — the creation of the holder fails, every time it is tried
 
 // what the V slot (cfg 1, 4, 8, 9) and W0.A (cfg 11) hold after a successful creation
 var cfgExpectV = map[int]string{1: "lit", 4: "dflt", 8: "cfgval", 9: "deep"}
@@ -95,7 +112,7 @@ var cfgExpectV = map[int]string{1: "lit", 4: "dflt", 8: "cfgval", 9: "deep"}
 // cfg 5: an OPTIONAL prefix point on a section nobody configured; 6: a REQUIRED one (the start fails); 7: both on one holder,
 // the optional one declared first (the start fails all the same)
 var cfgPrefix = map[int][2]string{5: {"absent.sec,required=false", ""}, 6: {"", "absent.sec"}, 7: {"absent.sec,required=false", "absent.sec"},
-	11: {"sec", ""}}
+	11: {"sec", ""}, 13: {"badsec", ""}}
 
 // cfg 12: a time.Time field bound by prefix WITH a validate argument: the configured time is valid, the start succeeds (since
 // the repair of defect D25; before it the validate stage handed the time to validator.Struct, which refuses it)
@@ -172,11 +189,30 @@ func variantScen(sc *gScen) *gScen {
 }
 
 func runGraph(sc *gScen) *gRun {
-	if sc.hist == 1 && sc.reuse == nil {
+	if (sc.hist == 1 || sc.hist == 4) && sc.reuse == nil {
 		// the same objects are started once before, in an App of their own; whatever that start left in them is what a second
 		// start finds (only the harness's own counters are reset)
 		pre := cloneScen(sc)
 		pre.hist = 0
+		if sc.hist == 4 {
+			// the same objects under OTHER custom names: every custom-named node takes the name of the next one
+			var idx []int
+			for i, n := range pre.nodes {
+				if n.cust != "" {
+					idx = append(idx, i)
+				}
+			}
+			if len(idx) > 1 {
+				first := pre.nodes[idx[0]].cust
+				for k := 0; k+1 < len(idx); k++ {
+					pre.nodes[idx[k]].cust = pre.nodes[idx[k+1]].cust
+				}
+				pre.nodes[idx[len(idx)-1]].cust = first
+			}
+			for i := range pre.nodes { // by-name points of the earlier start would dangle: it is started for its side effects only
+				pre.nodes[i].slots = map[string]string{}
+			}
+		}
 		if r0 := runGraph(pre); r0.status != "dupname" && r0.status != "hang" && len(r0.nodesObj) == len(sc.nodes) {
 			again := *sc
 			again.reuse = r0.nodesObj
@@ -287,6 +323,17 @@ func runGraph(sc *gScen) *gRun {
 	done := make(chan any, 1)
 	go func() {
 		done <- hx.Guard(func() {
+			if sc.hist == 3 {
+				half := len(sc.nodes) / 2
+				ioc.Register(comps[:half]...)
+				var a2 *app.App
+				a2, runErr = ioc.Run(app.LogLevel(syslog.LvPanic), app.SetRegistry(sr), app.SetFactory(fac),
+					app.SetConfigLoader(loaders...), app.SetComponents(comps[half:]...))
+				if a2 != nil {
+					a = a2
+				}
+				return
+			}
 			runErr = a.Run(app.LogLevel(syslog.LvPanic), app.SetRegistry(sr), app.SetFactory(fac),
 				app.SetConfigLoader(loaders...), app.SetComponents(comps...))
 		})
@@ -524,7 +571,7 @@ func runGraph(sc *gScen) *gRun {
 		}
 		if hasStaticSlots(gn.ty) {
 			ht := reflect.TypeOf(res.nodesObj[i]).Elem()
-			for _, sn := range staticSlots {
+			for _, sn := range staticSlotsOf(gn.ty) {
 				sf, _ := ht.FieldByName(sn)
 				kind, target := kindOf(sf.Type, tyOf)
 				res.slotInfo[fmt.Sprintf("%d.%s", i, sn)] = [3]string{kind, target, staticSlotTags[sn]}
@@ -588,7 +635,7 @@ func runGraph(sc *gScen) *gRun {
 		for i, n := range res.nodesObj {
 			if hasStaticSlots(sc.nodes[i].ty) {
 				hv := reflect.ValueOf(n).Elem()
-				for _, sn := range staticSlots {
+				for _, sn := range staticSlotsOf(sc.nodes[i].ty) {
 					res.fields[fmt.Sprintf("%d.%s", i, sn)] = readSlot(hv.FieldByName(sn), env)
 				}
 			}
@@ -919,7 +966,7 @@ func (r *gRun) scenarioLine() string {
 	for i := range sc.nodes {
 		emit(i, slotNames)
 		if hasStaticSlots(sc.nodes[i].ty) {
-			emit(i, staticSlots)
+			emit(i, staticSlotsOf(sc.nodes[i].ty))
 		}
 	}
 	emit(r.appRow, []string{"ApplicationRunners", "CloserComponents"})
@@ -982,7 +1029,7 @@ func (r *gRun) slotKeys() []string {
 			}
 		}
 		if hasStaticSlots(n.ty) {
-			for _, sn := range staticSlots {
+			for _, sn := range staticSlotsOf(n.ty) {
 				keys = append(keys, fmt.Sprintf("%d.%s", i, sn))
 			}
 		}
@@ -1091,6 +1138,32 @@ func (r *gRun) oracles() []string {
 		if info, ok := r.slotInfo[k]; ok && strings.Contains(info[2], ",required=false") {
 			add("c07-optional-wiped", "the optional point %s held a user-supplied value before the start and was reset to nothing", k)
 			add("c09-optional-wiped", "the optional point %s held a user-supplied value before the start and was reset to nothing", k)
+		}
+	}
+	// a creation whose callback reported an error never completes: the component is not published, nobody looks it up
+	if r.status != "hang" && r.status != "dupname" {
+		own := fltAPS | fltInit
+		byObs := fltInst | fltProps | fltBefore | fltAfter
+		for i, gn := range r.sc.nodes {
+			if i >= len(r.rows) || !r.created[r.rows[i].name] {
+				continue
+			}
+			bad := gn.flt & own
+			if i < len(r.nodesObj) && !isUnwired(r.nodesObj[i]) {
+				bad |= gn.flt & byObs
+			}
+			if gn.cfg == 13 || gn.cfg == 2 || gn.cfg == 6 || gn.cfg == 7 || gn.cfg == 10 {
+				if i < len(r.nodesObj) && !isUnwired(r.nodesObj[i]) {
+					for _, sig := range []string{"c04-unbound-published", "c09-unbound-published"} {
+						add(sig, "the creation of node %d completed (it is published) although a required configuration value of it cannot be bound (configuration slot %d)", i, gn.cfg)
+					}
+				}
+			}
+			if bad != 0 {
+				for _, sig := range []string{"c04-failed-published", "c05-failed-published", "c09-failed-published", "c12-failed-published"} {
+					add(sig, "the creation of node %d completed (it is published) although one of its callbacks reported an error (fault flags %d)", i, bad)
+				}
+			}
 		}
 	}
 	for _, k := range r.shadowBad {
